@@ -139,4 +139,18 @@ Proof.
     rewrite (mapM_str_key_bad g (z :: l) w kw Hw Hall Ew Hnw). reflexivity.
 Qed.
 
+Hypothesis ord_perm : forall m, Permutation (ord m) m.
+
+Lemma dispatcher_is_spec_call (exec : node -> value -> outcome value) name margs sargs :
+  Forall2 (arg_rel_gen exec) margs sargs ->
+  CallFunction ord exec name margs = spec_call ord name sargs.
+Proof. intros H. apply (FunFacts.call_refines ord ord_perm exec name margs sargs H). Qed.
+
+Lemma execute_never_panics e v fuel :
+  sem_ok e = true -> plain v = true -> (node_depth (compile e) <= fuel)%nat ->
+  Execute ord fuel (compile e) v <> Panic.
+Proof.
+  intros H1 H2 H3. rewrite (execute_is_eval ord ord_perm e v fuel H1 H2 H3). apply eval_no_panic.
+Qed.
+
 End WithNum.
